@@ -4137,6 +4137,176 @@ let run_parse = function
     false)), (String ((Ascii (true, false, true, false, false, true, true,
     false)), EmptyString))))))))))
 
+(** val node_of_sx : sx -> node option **)
+
+let node_of_sx = function
+| SL l ->
+  (match l with
+   | [] -> None
+   | s :: l0 ->
+     (match s with
+      | SB special ->
+        (match l0 with
+         | [] -> None
+         | s0 :: l1 ->
+           (match s0 with
+            | SN mask0 ->
+              (match l1 with
+               | [] -> None
+               | s1 :: l2 ->
+                 (match s1 with
+                  | SBits b ->
+                    (match l2 with
+                     | [] -> None
+                     | s2 :: l3 ->
+                       (match s2 with
+                        | SL refs ->
+                          (match l3 with
+                           | [] ->
+                             let ty =
+                               if special
+                               then n_of_bits
+                                      (firstn (S (S (S (S (S (S (S (S
+                                        O)))))))) b)
+                               else N0
+                             in
+                             let special' = (&&) special (negb (N.eqb ty N0))
+                             in
+                             let rs =
+                               map (fun r ->
+                                 match r with
+                                 | SN n0 -> N.to_nat n0
+                                 | _ -> O) refs
+                             in
+                             Some { n_special = special'; n_type =
+                             (if special' then ty else N0); n_mask = mask0;
+                             n_bits = b; n_refs = rs }
+                           | _ :: _ -> None)
+                        | _ -> None))
+                  | _ -> None))
+            | _ -> None))
+      | _ -> None))
+| _ -> None
+
+(** val nodes_of_sx : sx list -> node list option **)
+
+let rec nodes_of_sx = function
+| [] -> Some []
+| a :: t ->
+  (match node_of_sx a with
+   | Some n0 ->
+     (match nodes_of_sx t with
+      | Some ns -> Some (n0 :: ns)
+      | None -> None)
+   | None -> None)
+
+(** val level_info : imm res -> nat -> sx **)
+
+let level_info ri l =
+  SL
+    ((sx_res (fun x -> SBytes x) (bind ri (fun c -> imm_hash c l))) :: (
+    (sx_res (fun x -> SN x) (bind ri (fun c -> imm_depth c l))) :: []))
+
+(** val run_hashes : sx -> sx **)
+
+let run_hashes = function
+| SL l ->
+  (match l with
+   | [] ->
+     sx_err (String ((Ascii (false, false, false, true, false, true, true,
+       false)), (String ((Ascii (true, false, false, false, false, true,
+       true, false)), (String ((Ascii (true, true, false, false, true, true,
+       true, false)), (String ((Ascii (false, false, false, true, false,
+       true, true, false)), (String ((Ascii (true, false, true, false, false,
+       true, true, false)), (String ((Ascii (true, true, false, false, true,
+       true, true, false)), EmptyString))))))))))))
+   | s :: l0 ->
+     (match s with
+      | SL dag ->
+        (match l0 with
+         | [] ->
+           sx_err (String ((Ascii (false, false, false, true, false, true,
+             true, false)), (String ((Ascii (true, false, false, false,
+             false, true, true, false)), (String ((Ascii (true, true, false,
+             false, true, true, true, false)), (String ((Ascii (false, false,
+             false, true, false, true, true, false)), (String ((Ascii (true,
+             false, true, false, false, true, true, false)), (String ((Ascii
+             (true, true, false, false, true, true, true, false)),
+             EmptyString))))))))))))
+         | s0 :: l1 ->
+           (match s0 with
+            | SN root ->
+              (match l1 with
+               | [] ->
+                 (match nodes_of_sx dag with
+                  | Some cells ->
+                    let imms = eval_dag sha256 O cells in
+                    (match nth_error imms (N.to_nat root) with
+                     | Some ri ->
+                       (match nth_error cells (N.to_nat root) with
+                        | Some nd ->
+                          SL
+                            ((level_info ri O) :: ((level_info ri (S O)) :: (
+                            (level_info ri (S (S O))) :: ((level_info ri (S
+                                                            (S (S O)))) :: (
+                            (sx_nat (mask_level nd.n_mask)) :: [])))))
+                        | None ->
+                          sx_err (String ((Ascii (false, true, false, false,
+                            true, true, true, false)), (String ((Ascii (true,
+                            true, true, true, false, true, true, false)),
+                            (String ((Ascii (true, true, true, true, false,
+                            true, true, false)), (String ((Ascii (false,
+                            false, true, false, true, true, true, false)),
+                            EmptyString)))))))))
+                     | None ->
+                       sx_err (String ((Ascii (false, true, false, false,
+                         true, true, true, false)), (String ((Ascii (true,
+                         true, true, true, false, true, true, false)),
+                         (String ((Ascii (true, true, true, true, false,
+                         true, true, false)), (String ((Ascii (false, false,
+                         true, false, true, true, true, false)),
+                         EmptyString)))))))))
+                  | None ->
+                    sx_err (String ((Ascii (false, false, true, false, false,
+                      true, true, false)), (String ((Ascii (true, false,
+                      false, false, false, true, true, false)), (String
+                      ((Ascii (true, true, true, false, false, true, true,
+                      false)), EmptyString)))))))
+               | _ :: _ ->
+                 sx_err (String ((Ascii (false, false, false, true, false,
+                   true, true, false)), (String ((Ascii (true, false, false,
+                   false, false, true, true, false)), (String ((Ascii (true,
+                   true, false, false, true, true, true, false)), (String
+                   ((Ascii (false, false, false, true, false, true, true,
+                   false)), (String ((Ascii (true, false, true, false, false,
+                   true, true, false)), (String ((Ascii (true, true, false,
+                   false, true, true, true, false)), EmptyString)))))))))))))
+            | _ ->
+              sx_err (String ((Ascii (false, false, false, true, false, true,
+                true, false)), (String ((Ascii (true, false, false, false,
+                false, true, true, false)), (String ((Ascii (true, true,
+                false, false, true, true, true, false)), (String ((Ascii
+                (false, false, false, true, false, true, true, false)),
+                (String ((Ascii (true, false, true, false, false, true, true,
+                false)), (String ((Ascii (true, true, false, false, true,
+                true, true, false)), EmptyString))))))))))))))
+      | _ ->
+        sx_err (String ((Ascii (false, false, false, true, false, true, true,
+          false)), (String ((Ascii (true, false, false, false, false, true,
+          true, false)), (String ((Ascii (true, true, false, false, true,
+          true, true, false)), (String ((Ascii (false, false, false, true,
+          false, true, true, false)), (String ((Ascii (true, false, true,
+          false, false, true, true, false)), (String ((Ascii (true, true,
+          false, false, true, true, true, false)), EmptyString))))))))))))))
+| _ ->
+  sx_err (String ((Ascii (false, false, false, true, false, true, true,
+    false)), (String ((Ascii (true, false, false, false, false, true, true,
+    false)), (String ((Ascii (true, true, false, false, true, true, true,
+    false)), (String ((Ascii (false, false, false, true, false, true, true,
+    false)), (String ((Ascii (true, false, true, false, false, true, true,
+    false)), (String ((Ascii (true, true, false, false, true, true, true,
+    false)), EmptyString))))))))))))
+
 (** val run : string -> sx -> sx **)
 
 let run name a =
@@ -4211,31 +4381,53 @@ let run name a =
                            (true, false, true, false, false, true, true,
                            false)), EmptyString))))))))))))))))))
                       then run_parse a
-                      else sx_err (String ((Ascii (true, false, true, false,
-                             true, true, true, false)), (String ((Ascii
-                             (false, true, true, true, false, true, true,
-                             false)), (String ((Ascii (true, true, false,
-                             true, false, true, true, false)), (String
-                             ((Ascii (false, true, true, true, false, true,
-                             true, false)), (String ((Ascii (true, true,
-                             true, true, false, true, true, false)), (String
-                             ((Ascii (true, true, true, false, true, true,
-                             true, false)), (String ((Ascii (false, true,
-                             true, true, false, true, true, false)), (String
-                             ((Ascii (false, false, false, false, false,
-                             true, false, false)), (String ((Ascii (true,
-                             true, false, false, false, true, true, false)),
-                             (String ((Ascii (true, false, false, false,
-                             false, true, true, false)), (String ((Ascii
-                             (true, true, false, false, true, true, true,
-                             false)), (String ((Ascii (true, false, true,
-                             false, false, true, true, false)), (String
-                             ((Ascii (false, false, false, false, false,
-                             true, false, false)), (String ((Ascii (true,
-                             true, false, true, false, true, true, false)),
-                             (String ((Ascii (true, false, false, true,
-                             false, true, true, false)), (String ((Ascii
-                             (false, true, true, true, false, true, true,
-                             false)), (String ((Ascii (false, false, true,
-                             false, false, true, true, false)),
-                             EmptyString))))))))))))))))))))))))))))))))))
+                      else if is (String ((Ascii (true, true, false, false,
+                                false, true, true, false)), (String ((Ascii
+                                (false, false, false, false, true, true,
+                                false, false)), (String ((Ascii (false, true,
+                                false, false, true, true, false, false)),
+                                (String ((Ascii (false, true, true, true,
+                                false, true, false, false)), (String ((Ascii
+                                (false, false, false, true, false, true,
+                                true, false)), (String ((Ascii (true, false,
+                                false, false, false, true, true, false)),
+                                (String ((Ascii (true, true, false, false,
+                                true, true, true, false)), (String ((Ascii
+                                (false, false, false, true, false, true,
+                                true, false)), (String ((Ascii (true, false,
+                                true, false, false, true, true, false)),
+                                (String ((Ascii (true, true, false, false,
+                                true, true, true, false)),
+                                EmptyString))))))))))))))))))))
+                           then run_hashes a
+                           else sx_err (String ((Ascii (true, false, true,
+                                  false, true, true, true, false)), (String
+                                  ((Ascii (false, true, true, true, false,
+                                  true, true, false)), (String ((Ascii (true,
+                                  true, false, true, false, true, true,
+                                  false)), (String ((Ascii (false, true,
+                                  true, true, false, true, true, false)),
+                                  (String ((Ascii (true, true, true, true,
+                                  false, true, true, false)), (String ((Ascii
+                                  (true, true, true, false, true, true, true,
+                                  false)), (String ((Ascii (false, true,
+                                  true, true, false, true, true, false)),
+                                  (String ((Ascii (false, false, false,
+                                  false, false, true, false, false)), (String
+                                  ((Ascii (true, true, false, false, false,
+                                  true, true, false)), (String ((Ascii (true,
+                                  false, false, false, false, true, true,
+                                  false)), (String ((Ascii (true, true,
+                                  false, false, true, true, true, false)),
+                                  (String ((Ascii (true, false, true, false,
+                                  false, true, true, false)), (String ((Ascii
+                                  (false, false, false, false, false, true,
+                                  false, false)), (String ((Ascii (true,
+                                  true, false, true, false, true, true,
+                                  false)), (String ((Ascii (true, false,
+                                  false, true, false, true, true, false)),
+                                  (String ((Ascii (false, true, true, true,
+                                  false, true, true, false)), (String ((Ascii
+                                  (false, false, true, false, false, true,
+                                  true, false)),
+                                  EmptyString))))))))))))))))))))))))))))))))))
